@@ -1,2 +1,2 @@
-import JinnsModel.Minibatch
 import JinnsModel.HoldsC09
+import JinnsModel.Minibatch
